@@ -40,7 +40,7 @@ def run(tier):
     n, stmts = (1600, 10) if tier == "quick" else (24000, 14)
     tp, meta = S.record("c01", C.seed(), n, stmts, wd)
     rows = C.ndjson_read(tp)
-    stats, bad, states = S.judge_rows(rows, wd, "c01", chunks=8 if tier == "quick" else 16)
+    stats, bad, states = S.judge_rows(rows, wd, "c01", chunks=8 if tier == "quick" else 32)
     byid = {r["id"]: r for r in rows}
     if bad:
         ex = S.explain([byid[b] for b in bad[:40]], wd)
